@@ -256,7 +256,7 @@ fn main() {
             let prop: u32 = a.get("prop").map(|s| s.parse().unwrap()).unwrap_or(0);
             let p = mc::Params {
                 max_depth: depth,
-                max_devs: 0,
+                max_devs: a.get("devs").map(|s| s.parse().unwrap()).unwrap_or(0),
                 threads,
                 budget_s: a.get("budget-s").map(|s| s.parse().unwrap()).unwrap_or(40.0),
                 prop_mask: if prop == 0 { u32::MAX } else { 1 << prop },
@@ -267,7 +267,7 @@ fn main() {
                 max_states_per_level: a.get("max-level").map(|s| s.parse().unwrap()).unwrap_or(3_000_000),
             };
             let rep = mc::explore(&model, &p);
-            let j = report_json(&rep, serde_json::json!({"engine": "pair", "thorough": thorough, "max_depth": depth, "threads": threads}));
+            let j = report_json(&rep, serde_json::json!({"engine": "pair", "max_devs": p.max_devs, "thorough": thorough, "max_depth": depth, "threads": threads}));
             let out = a.get("out").cloned().unwrap_or("/dev/stdout".into());
             std::fs::write(&out, serde_json::to_string_pretty(&j).unwrap()).unwrap();
         }
@@ -295,6 +295,86 @@ fn main() {
             let mode = if a.get("mode").map(|s| s == "faults").unwrap_or(false) { coll::strmodel::SMode::Faults } else { coll::strmodel::SMode::Diff };
             let model = coll::strmodel::StrModel { mode, thorough, max_chars, max_depth: depth };
             run_generic(&model, replay, &a, threads, slab_bytes, depth, serde_json::json!({"engine": "str", "mode": format!("{:?}", mode), "max_chars": max_chars, "max_depth": depth, "thorough": thorough}));
+        }
+        "isolation" | "isolation-child" | "replay-isolation" => {
+            // C20 across processes (see pair.rs): parent spawns one fresh child per prefix history
+            let thorough = a.get("tier").map(|s| s == "thorough").unwrap_or(false);
+            let model = pair::PairModel { thorough, max_depth: 8 };
+            let ms: Vec<u8> = vec![1, 16];
+            if args[1] == "isolation-child" {
+                env::init_region(4 * env::MAX_ARENAS * (slab_bytes + env::SLAB_ALIGN));
+                journal::install(None);
+                pair::install_hook();
+                let mut w = mc::Worker { idx: 0, env: env::ExecEnv::new(slab_bytes) };
+                journal::set_worker(0);
+                env::attach(&mut *w.env as *mut env::ExecEnv);
+                let mval: u8 = a.get("m").map(|s| s.parse().unwrap()).unwrap_or(1);
+                let pi: i64 = a.get("prefix").map(|s| s.parse().unwrap()).unwrap_or(-1);
+                let t = model.isolation_child(&mut *w.env as *mut env::ExecEnv, mval, pi);
+                let s: Vec<String> = t.iter().map(|x| format!("{:x}", x)).collect();
+                println!("{}", s.join(","));
+                return;
+            }
+            let exe = std::env::current_exe().unwrap();
+            let tier = if thorough { "thorough" } else { "quick" };
+            let child = |m: u8, pi: i64| -> Vec<String> {
+                let o = std::process::Command::new(&exe).args(["isolation-child", "--m", &m.to_string(), "--prefix", &pi.to_string(), "--tier", tier]).output().expect("spawn child");
+                if !o.status.success() {
+                    return vec![format!("CHILD-DIED status {:?}", o.status.code())];
+                }
+                String::from_utf8_lossy(&o.stdout).trim().split(',').map(|s| s.to_string()).collect()
+            };
+            let prefixes = pair::prefix_histories(thorough);
+            let probes = pair::probe_histories(thorough);
+            if args[1] == "replay-isolation" {
+                let hex = a.get("hex").expect("--hex");
+                let parts: Vec<i64> = hex.split('.').map(|x| i64::from_str_radix(x, 16).unwrap()).collect();
+                let (m, pi, qi) = (parts[0] as u8, parts[1], parts[2] as usize);
+                let desc = serde_json::json!({"min_align": m, "earlier_history_on_another_arena": pair::describe_steps(&prefixes[pi as usize]), "history_of_the_observed_arena": pair::describe_steps(&probes[qi])});
+                println!("{}", serde_json::to_string(&serde_json::json!({"replaying": desc})).unwrap());
+                let base = child(m, -1);
+                let with = child(m, pi);
+                let differs = base.get(qi) != with.get(qi);
+                let viols = if differs { vec![serde_json::json!({"property": "C20", "clause": "trace_depends_on_earlier_arenas_in_process", "key": "trace_depends_on_earlier_arenas_in_process", "detail": "reproduced in fresh processes"})] } else { vec![] };
+                println!("{}", serde_json::to_string_pretty(&serde_json::json!({"history": desc, "trace": [], "violations": viols})).unwrap());
+                return;
+            }
+            let t0 = std::time::Instant::now();
+            let mut viols: Vec<serde_json::Value> = Vec::new();
+            let mut execs = 0u64;
+            for &m in &ms {
+                let base = child(m, -1);
+                execs += base.len() as u64;
+                let results: Vec<(usize, Vec<String>)> = std::thread::scope(|sc| {
+                    let chunks: Vec<Vec<usize>> = (0..threads).map(|t| (0..prefixes.len()).filter(|i| i % threads == t).collect()).collect();
+                    let hs: Vec<_> = chunks.into_iter().map(|c| { let child = &child; sc.spawn(move || c.into_iter().map(|i| (i, child(m, i as i64))).collect::<Vec<_>>()) }).collect();
+                    hs.into_iter().flat_map(|h| h.join().unwrap()).collect()
+                });
+                for (i, t) in results {
+                    execs += t.len() as u64 + 1;
+                    if t.len() != base.len() {
+                        if viols.len() < 5 {
+                            viols.push(serde_json::json!({"property": "C20", "clause": "trace_depends_on_earlier_arenas_in_process", "key": "trace_depends_on_earlier_arenas_in_process/child_died", "detail": format!("child with prefix {:?} did not complete: {:?}", pair::describe_steps(&prefixes[i]), t.first()), "hist_hex": format!("{:x}.{:x}.0", m, i), "history": {"earlier_history_on_another_arena": pair::describe_steps(&prefixes[i])}}));
+                        }
+                        continue;
+                    }
+                    if let Some(qi) = (0..t.len()).find(|&q| t[q] != base[q]) {
+                        if viols.len() < 5 {
+                            viols.push(serde_json::json!({"property": "C20", "clause": "trace_depends_on_earlier_arenas_in_process", "key": "trace_depends_on_earlier_arenas_in_process",
+                                "detail": format!("MIN_ALIGN {m}: the results/placement/accounting of an arena running {:?} differ depending on whether another arena earlier ran {:?} in the same process", pair::describe_steps(&probes[qi]), pair::describe_steps(&prefixes[i])),
+                                "hist_hex": format!("{:x}.{:x}.{:x}", m, i, qi), "history": {"earlier_history_on_another_arena": pair::describe_steps(&prefixes[i]), "history_of_the_observed_arena": pair::describe_steps(&probes[qi])}}));
+                        }
+                    }
+                }
+            }
+            let j = serde_json::json!({
+                "states": (prefixes.len() * probes.len() * ms.len()) as u64, "transitions": execs, "executions": execs, "distinct_outcomes": probes.len() as u64, "depth_completed": 0, "level_sizes": [prefixes.len(), probes.len()], "caps_hit": [],
+                "coverage_events": {"prefix_histories": prefixes.len(), "probe_histories": probes.len(), "fresh_processes": (prefixes.len() + 1) * ms.len()}, "violations": viols, "violations_total": viols.len(), "skipped_crash": 0,
+                "samples": [{"earlier_history_on_another_arena": pair::describe_steps(&prefixes[prefixes.len() / 2]), "history_of_the_observed_arena": pair::describe_steps(&probes[probes.len() / 2])}], "wall_s": t0.elapsed().as_secs_f64(),
+                "extra": {"engine": "isolation (fresh process per prefix history)"},
+            });
+            let out = a.get("out").cloned().unwrap_or("/dev/stdout".into());
+            std::fs::write(&out, serde_json::to_string_pretty(&j).unwrap()).unwrap();
         }
         "replay-arena" => {
             env::init_region(4 * env::MAX_ARENAS * (slab_bytes + env::SLAB_ALIGN));
